@@ -18,6 +18,9 @@ import (
 	"time"
 
 	azip "github.com/itchio/arkive/zip"
+	"github.com/itchio/lake/tlc"
+	"github.com/itchio/lake/pools/fspool"
+	"github.com/itchio/wharf/archiver/containerarchiver"
 	"github.com/itchio/wharf/archiver"
 )
 
@@ -176,6 +179,53 @@ func cmdC19(args []string) error {
 				line.Err = err.Error()
 			} else {
 				line.Dirs, line.Files, line.Syms = res.Dirs, res.Files, res.Symlinks
+			}
+			if s, err := snapshot(dst); err == nil {
+				line.Out = snapList(s)
+			}
+			os.RemoveAll(dst)
+			w.emit(line)
+		}
+		// ---- the container-based zip writer (archiver/containerarchiver): the tree as a tlc container read through a
+		// pool. The pool object may have a history (the caller looked at a file through it, or archived once already).
+		{
+			cont, err := tlc.WalkAny(src, tlc.WalkOpts{})
+			if err != nil {
+				return err
+			}
+			pool := fspool.New(cont, src)
+			hist := []string{"fresh-pool", "peeked-at-first-file", "second-archive-from-same-pool", "read-last-file-first"}[k%4]
+			switch hist {
+			case "peeked-at-first-file":
+				if len(cont.Files) > 0 {
+					if r, err := pool.GetReadSeeker(0); err == nil {
+						io.ReadFull(r, make([]byte, 16))
+					}
+				}
+			case "second-archive-from-same-pool":
+				containerarchiver.CompressZip(io.Discard, cont, pool, nullConsumer())
+			case "read-last-file-first":
+				if n := len(cont.Files); n > 0 {
+					if r, err := pool.GetReader(int64(n - 1)); err == nil {
+						io.Copy(io.Discard, r)
+					}
+				}
+			}
+			var cz bytes.Buffer
+			line := mk("zip", 1+rng.Intn(4))
+			line.Desc = desc + ",containerarchiver:" + hist
+			if _, err := containerarchiver.CompressZip(&cz, cont, pool, nullConsumer()); err != nil {
+				line.Err = "containerarchiver.CompressZip: " + err.Error()
+			}
+			pool.Close()
+			dst := filepath.Join(root, "out-czip")
+			if line.Err == "" {
+				res, err := archiver.ExtractZip(bytes.NewReader(cz.Bytes()), int64(cz.Len()), dst, archiver.ExtractSettings{Consumer: nullConsumer(), Concurrency: line.Workers})
+				if err != nil {
+					line.Err = err.Error()
+				} else {
+					line.Dirs, line.Files, line.Syms = res.Dirs, res.Files, res.Symlinks
+				}
 			}
 			if s, err := snapshot(dst); err == nil {
 				line.Out = snapList(s)
